@@ -921,4 +921,115 @@ Section Sim.
                intros ->. rewrite group_start_0 in Hgt. lia.
     Qed.
   End Step.
+
+  (* ---------- the two inductions on fuel ---------- *)
+
+  Lemma run_exit f tpl ae depth ch s o wdx : VM.run W wr wdx (S f) tpl ae depth ch (length ch) s o = RDone s o.
+  Proof.
+    cbn [VM.run]. assert (nth_error ch (length ch) = None) as -> by (apply nth_error_None; lia). reflexivity.
+  Qed.
+
+  Lemma gsize_bound ch g : good ch -> In g (opt_chunk ch) -> gsize g <= K.
+  Proof.
+    intros [HC HK] Hg. pose proof (gsize_le_expand _ _ Hg) as H. rewrite (cg_len _ HC) in H. lia.
+  Qed.
+
+  (* at the exit of the chunk on both sides *)
+  Lemma exit_step dir fp fo tpl ae depth ch lt n lo s s' o bl bl' :
+    good ch -> ltable_ok ch lt -> nth_error (opt_chunk ch) n = None -> n <= length (opt_chunk ch) ->
+    lt (group_start (opt_chunk ch) n) = Some lo -> SR (opt_chunk ch) bl bl' lo s s' ->
+    Q dir (opt_chunk ch) bl bl'
+      (runP (S fp) tpl ae depth ch (group_start (opt_chunk ch) n) s o)
+      (runO (S fo) (opt_tpl tpl) ae depth (opt_chunk ch) n s' o).
+  Proof.
+    intros [HC HK] [_ Hexit] En Hn Elt HSR.
+    assert (n = length (opt_chunk ch)) by (apply nth_error_None in En; lia). subst n.
+    rewrite (group_start_len_p ch _ (cg_rel _ HC)) in *. rewrite !run_exit.
+    rewrite (Hexit _ Elt) in HSR. intros _. split; [reflexivity|exact HSR].
+  Qed.
+
+  (* original => optimised: the same fuel (or more) suffices on the optimised side *)
+  Lemma P_true : forall N fp fo, fp <= N -> fp <= fo -> P true fp fo.
+  Proof.
+    induction N as [|N IH]; intros fp fo HN Hle.
+    - assert (fp = 0) by lia. subst. intros tpl ae depth ch lt n lo s s' o bl bl' _ _ _ _ _ _ Hl.
+      exfalso. apply Hl. reflexivity.
+    - destruct fp as [|fp]; [apply (IH 0 fo); lia|].
+      destruct fo as [|fo]; [lia|].
+      intros tpl ae depth ch lt n lo s s' o bl bl' HT HG Hlt Hn Elt HSR.
+      destruct (nth_error (opt_chunk ch) n) as [g|] eqn:Eg.
+      + destruct (is_fused g) eqn:Ef.
+        * pose proof (gsize_pos g).
+          apply (fused_step true (S fp) fo tpl ae depth ch lt n g lo s s' o bl bl'); try assumption.
+          -- apply (IH (S fp - gsize g) fo); lia.
+          -- discriminate.
+        * apply (plain_step true fp fo tpl ae depth ch lt n g lo s s' o bl bl'); try assumption.
+          apply (IH fp fo); lia.
+      + apply (exit_step true fp fo tpl ae depth ch lt n lo s s' o bl bl'); assumption.
+  Qed.
+
+  (* optimised => original: every optimised step is at most K original steps *)
+  Lemma P_false : forall fo fp, S K * fo <= fp -> P false fp fo.
+  Proof.
+    induction fo as [|fo IH]; intros fp Hle.
+    - intros tpl ae depth ch lt n lo s s' o bl bl' _ _ _ _ _ _ Hl. exfalso. apply Hl. reflexivity.
+    - intros tpl ae depth ch lt n lo s s' o bl bl' HT HG Hlt Hn Elt HSR.
+      destruct fp as [|fp]; [lia|].
+      destruct (nth_error (opt_chunk ch) n) as [g|] eqn:Eg.
+      + destruct (is_fused g) eqn:Ef.
+        * pose proof (gsize_pos g). pose proof (gsize_bound ch g HG (nth_error_In _ _ Eg)).
+          apply (fused_step false (S fp) fo tpl ae depth ch lt n g lo s s' o bl bl'); try assumption.
+          -- apply IH. lia.
+          -- intros _. lia.
+        * apply (plain_step false fp fo tpl ae depth ch lt n g lo s s' o bl bl'); try assumption.
+          apply IH. lia.
+      + apply (exit_step false fp fo tpl ae depth ch lt n lo s s' o bl bl'); assumption.
+  Qed.
+
+  (* ---------- render_to ---------- *)
+
+  (* what a caller of render_to observes: the writer, or the error class *)
+  Definition same_outcome (r r' : rres W) : Prop :=
+    match r, r' with
+    | RDone _ o, RDone _ o' => o' = o
+    | RFail e, RFail e' => e' = e
+    | _, _ => False
+    end.
+
+  Lemma render_rel dir fp fo tpl block c g w : P dir fp fo -> tgood tpl ->
+    live_side dir (render_to W wr wd fp tpl block c g w)
+                  (render_to W wr (opt_world wd) fo (opt_tpl tpl) block c g w) ->
+    same_outcome (render_to W wr wd fp tpl block c g w)
+                 (render_to W wr (opt_world wd) fo (opt_tpl tpl) block c g w).
+  Proof.
+    intros HP HT. unfold render_to. cbn [opt_tpl t_root_chunk].
+    set (s0 := {| stack := []; loops := []; setvars := []; caps := []; blocks := []; cur_block := None;
+                  parent := None; context := c; global := Some g; capture_block := block;
+                  block_buffer := [] |}).
+    assert (HS0 : SB s0 s0) by (unfold OptWorldBase.SB; cbn; repeat split; constructor).
+    destruct block as [b|].
+    - pose proof (nested dir fp fo tpl None 0 (t_root_chunk tpl) s0 s0 (SinkBuf []) HP HT (proj1 HT) HS0) as HN.
+      revert HN.
+      destruct (runP fp tpl None 0 (t_root_chunk tpl) 0 s0 (SinkBuf [])) as [s1 o1|e1|],
+               (runO fo (opt_tpl tpl) None 0 (opt_chunk (t_root_chunk tpl)) 0 s0 (SinkBuf [])) as [s1' o1'|e1'|];
+        intros HN Hl.
+      + destruct (Q_DD _ _ _ _ _ _ _ _ HN) as [_ [HB _]]. unfold OptWorldBase.SB in HB.
+        destruct HB as (_ & _ & _ & _ & _ & _ & _ & _ & _ & Hbb & _). rewrite Hbb.
+        destruct (wr w (block_buffer s1)); reflexivity.
+      + exfalso. exact (Q_DF _ _ _ _ _ _ _ HN).
+      + exfalso. destruct dir; [|apply Hl; reflexivity].
+        destruct (wr w (block_buffer s1)); exact (HN ltac:(discriminate)).
+      + exfalso. exact (Q_FD _ _ _ _ _ _ _ HN).
+      + exact (Q_FF _ _ _ _ _ _ HN).
+      + exfalso. destruct dir; [exact (HN ltac:(discriminate))|apply Hl; reflexivity].
+      + exfalso. destruct dir; [apply Hl; reflexivity|].
+        destruct (wr w (block_buffer s1')); exact (HN ltac:(discriminate)).
+      + exfalso. destruct dir; [apply Hl; reflexivity|exact (HN ltac:(discriminate))].
+      + exfalso. destruct dir; apply Hl; reflexivity.
+    - pose proof (nested dir fp fo tpl None 0 (t_root_chunk tpl) s0 s0 (SinkTop w) HP HT (proj1 HT) HS0) as HN.
+      intros Hl. specialize (HN Hl).
+      destruct (runP fp tpl None 0 (t_root_chunk tpl) 0 s0 (SinkTop w)) as [s1 o1|e1|],
+               (runO fo (opt_tpl tpl) None 0 (opt_chunk (t_root_chunk tpl)) 0 s0 (SinkTop w)) as [s1' o1'|e1'|];
+        cbn in HN; try contradiction; [exact (proj1 HN)|exact HN].
+  Qed.
 End Sim.
